@@ -36,6 +36,9 @@ def ev(expr, env: dict):
             return a == b
         if isinstance(op, (ast.NotEq, ast.IsNot)):
             return a != b
+    if isinstance(expr, ast.IfExp):
+        t = ev(expr.test, env)
+        return None if t is None else ev(expr.body if t else expr.orelse, env)
     if isinstance(expr, ast.Call) and A.call_name(expr) == "bool" and len(expr.args) == 1:
         return ev(expr.args[0], env)
     return None
